@@ -99,7 +99,13 @@ func PlanHash(b []byte) string {
 func RunPlan(t *testing.T, p *Profile, seed uint64, plan json.RawMessage) *Result {
 	res := &Result{Profile: p.ID, Seed: seed, PlanHash: PlanHash(plan), Verdict: "ok"}
 	start := time.Now()
-	func() {
+	completed := false
+	doneCh := make(chan struct{})
+	// Exec runs in its own goroutine: when the race detector fails a bubble,
+	// testing calls FailNow (runtime.Goexit) on the goroutine that called
+	// synctest.Test; that must not take the worker loop down with it.
+	go func() {
+		defer close(doneCh)
 		defer func() {
 			if e := recover(); e != nil {
 				st := string(debug.Stack())
@@ -110,10 +116,22 @@ func RunPlan(t *testing.T, p *Profile, seed uint64, plan json.RawMessage) *Resul
 					res.Verdict = "invalid"
 					res.Detail = fmt.Sprintf("harness panic: %v\n%s", e, trimStack(st))
 				}
+				completed = true
 			}
 		}()
 		p.Exec(t, plan, res)
+		completed = true
 	}()
+	<-doneCh
+	if !completed && res.Verdict == "ok" {
+		if raceErrors() > 0 {
+			res.Verdict = "race-abort"
+			res.Detail = "the race detector failed a bubble; see the race log"
+		} else {
+			res.Verdict = "invalid"
+			res.Detail = "case goroutine exited early (t.FailNow?)"
+		}
+	}
 	res.WallMs = float64(time.Since(start).Microseconds()) / 1000
 	return res
 }
